@@ -9,7 +9,7 @@
    decided by the bit-exact correspondence and the falsifier. *)
 From Coq Require Import ZArith List String Bool.
 From Hexital Require Import Base.Prelude Base.Num Inst.ZInst Model.Manager Model.Candle Model.Readings Model.Engine
-  Proofs.EngineProofs Proofs.CausalProofs Proofs.AnalysisProofs Proofs.ComposeProofs Proofs.PipelineProofs Proofs.ComposeHA Proofs.CausalMore Proofs.CausalWin Proofs.CompositeProofs Proofs.AtrCompose Proofs.FillCompose Proofs.FillEngine Proofs.FillHA Proofs.FillHAEngine Model.Analysis.
+  Proofs.EngineProofs Proofs.CausalProofs Proofs.AnalysisProofs Proofs.ComposeProofs Proofs.PipelineProofs Proofs.ComposeHA Proofs.CausalMore Proofs.CausalWin Proofs.CompositeProofs Proofs.AtrCompose Proofs.FillCompose Proofs.FillEngine Proofs.FillHA Proofs.FillHAEngine Proofs.DataSlot Proofs.DataInst Proofs.DataThms Model.Analysis.
 Import ListNotations.
 Local Open Scope Z_scope.
 
@@ -270,5 +270,55 @@ Example C01_filled_timeframe_example :
 Proof.
   split; [exists c01_F; split; [vm_cast_no_check (@eq_refl (res (store ZOps)) (Ok c01_F))|vm_cast_no_check (@eq_refl (res (store ZOps)) (Ok c01_D))]|].
   split; [exists c01_F; split; [vm_cast_no_check (@eq_refl (res (store ZOps)) (Ok c01_F))|vm_cast_no_check (@eq_refl (res (store ZOps)) (Ok c01_D2))]|].
+  split; reflexivity.
+Qed.
+
+(* indicators that keep their running state in one managed helper series "<name>_data" - VWAP
+   (cumulative price*volume and volume), StandardDeviation (running mean and variance), RSI
+   (Wilder averages of gain and loss): _calculate_reading writes the helper's slot of the same
+   candle through Managed.set_reading, reads it back, and may write it a second time.  For these
+   three classes (data_kind), built as the library builds them (data_node: no sub-indicators, the
+   one managed helper, an ordinary helper name), over candles that do not already carry the two
+   series (fresh_data): any split of the stream into append chunks ends in exactly the store - or
+   the exception - of one calculate() over the whole stream.  Proofs/DataSlot.v is the engine
+   theorem for this shape; the per-class obligation (the reading at index |a| of a ++ c :: rest is
+   a function of the prefix and the candle, its only effect is the helper slot of c, a stored
+   None reading is recomputed to the same candle) is discharged in Proofs/DataInst.v. *)
+Theorem C01_schedule_independence_data_series_indicators :
+  forall (O : NumOps) (I : ind O) (key : string), data_node O I key -> data_kind O I key ->
+  forall chunks : list (list (cd (payload O))), Forall (Forall (fresh_data O I)) chunks ->
+  engine_chunks O I [] chunks = calculate O I (List.concat chunks).
+Proof. exact data_incremental_equals_batch. Qed.
+Print Assumptions C01_schedule_independence_data_series_indicators.
+
+Definition c01x_mk ts o h l c : cd (payload ZOps) := Build_cd ts (raw_payload ZOps (Build_ohlcv ZOps o h l c 10)).
+Definition c01x_a1 := c01x_mk 60 10 14 8 12. Definition c01x_a2 := c01x_mk 120 12 18 11 16.
+Definition c01x_a3 := c01x_mk 180 16 17 9 10. Definition c01x_a4 := c01x_mk 240 10 13 10 12.
+
+(* the premises are met by the library's own constructors over raw candles; over Z: VWAP and RSI(2)
+   on four candles fed as 1 + 2 + 1 *)
+Definition c01_V : ind ZOps := top ZOps K_VWAP "VWAP" 4.
+Definition c01_R : ind ZOps := top ZOps (K_RSI 2 "close") "RSI_2" 4.
+Definition c01_vwap_r : store ZOps :=
+  Eval vm_compute in (match calculate ZOps c01_V [c01x_a1; c01x_a2; c01x_a3; c01x_a4] with Ok r => r | Err _ => [] end).
+Definition c01_rsi_r : store ZOps :=
+  Eval vm_compute in (match calculate ZOps c01_R [c01x_a1; c01x_a2; c01x_a3; c01x_a4] with Ok r => r | Err _ => [] end).
+Example C01_data_series_example :
+  data_node ZOps c01_V "VWAP_data" /\ data_kind ZOps c01_V "VWAP_data" /\
+  data_node ZOps c01_R "RSI_data" /\ data_kind ZOps c01_R "RSI_data" /\
+  Forall (fresh_data ZOps c01_V) [c01x_a1; c01x_a2; c01x_a3; c01x_a4] /\ Forall (fresh_data ZOps c01_R) [c01x_a1; c01x_a2; c01x_a3; c01x_a4] /\
+  engine_chunks ZOps c01_V [] [[c01x_a1]; [c01x_a2; c01x_a3]; [c01x_a4]] = Ok c01_vwap_r /\
+  engine_chunks ZOps c01_R [] [[c01x_a1]; [c01x_a2; c01x_a3]; [c01x_a4]] = Ok c01_rsi_r /\
+  map (fun c => alist_get "VWAP" (inds ZOps (p c))) c01_vwap_r = [Some (@VNum ZOps 11); Some (@VNum ZOps 13); Some (@VNum ZOps 12); Some (@VNum ZOps 12)] /\
+  map (fun c => alist_get "RSI_2" (inds ZOps (p c))) c01_rsi_r = [Some VNone; Some VNone; Some (@VNum ZOps 0); Some (@VNum ZOps 67)].
+Proof.
+  split; [apply top_vwap_node; [reflexivity|intros q; reflexivity]|].
+  split; [left; split; reflexivity|].
+  split; [apply top_rsi_node; [reflexivity|intros q; reflexivity]|].
+  split. { right; right. exists 2, "close"%string. repeat split; try reflexivity; try (cbv; discriminate).
+           - apply stable_close. - apply stable_close. }
+  split; [repeat constructor|]. split; [repeat constructor|].
+  split; [vm_cast_no_check (@eq_refl (res (store ZOps)) (Ok c01_vwap_r))|].
+  split; [vm_cast_no_check (@eq_refl (res (store ZOps)) (Ok c01_rsi_r))|].
   split; reflexivity.
 Qed.
